@@ -284,6 +284,9 @@ def gen_plan(family, seed, pool, tier='quick'):
 
 def _gen_plan(family, rng, pool, tier):
     small = lambda e: e['adm']['full']['n'] <= 3000 and no_defs(e)
+    # synthetic table-definition messages (over ids nobody else uses) are ordinary messages for a
+    # metadata-only decode or scan: their data section must not be read either
+    synth_defs = [e for e in pool if 'D' in e['cls'] and e['src'] == 'synth']
     if family == 'c11':
         n = rng.choice([0, 1, 1, 2, 2, 3, 3, 4, 5, 6, 8])
         bias = rng.random()
@@ -429,7 +432,7 @@ def _gen_plan(family, rng, pool, tier):
                 'tail': tail.hex()}
 
     if family == 'c17':
-        e = rng.choice([x for x in pool if small(x)])
+        e = rng.choice(synth_defs) if (synth_defs and rng.random() < 0.1) else rng.choice([x for x in pool if small(x)])
         raw = bytes.fromhex(e['hex'])
         fault = gen_data_damage(rng, raw) if rng.random() < 0.85 else None
         it = _item(e, fault)
@@ -442,7 +445,10 @@ def _gen_plan(family, rng, pool, tier):
         # one Decoder and ONE querent object used over several messages (with and without section 2,
         # several editions, metadata-only and full decodes interleaved)
         items = []
-        for e in _pick(rng, pool, rng.randint(2, 5), small):
+        picked = _pick(rng, pool, rng.randint(2, 5), small)
+        if synth_defs and rng.random() < 0.2:
+            picked[rng.randrange(len(picked))] = rng.choice(synth_defs)
+        for e in picked:
             raw = bytes.fromhex(e['hex'])
             how = rng.choice(['info', 'info', 'full', 'full_ive'])
             fault = gen_data_damage(rng, raw) if (how == 'info' and rng.random() < 0.5) else None
@@ -456,7 +462,10 @@ def _gen_plan(family, rng, pool, tier):
         n = rng.choice([1, 2, 2, 3, 4, 5, 6])
         items = []
         emb = rng.random() < 0.35       # bias to messages whose body holds a start signature
-        for e in _pick(rng, pool, n, (lambda x: small(x) and ('B' in x['cls'] or rng.random() < 0.3)) if emb else small):
+        picked = _pick(rng, pool, n, (lambda x: small(x) and ('B' in x['cls'] or rng.random() < 0.3)) if emb else small)
+        if synth_defs and rng.random() < 0.3:
+            picked.insert(rng.randint(0, len(picked)), rng.choice(synth_defs))
+        for e in picked:
             raw = bytes.fromhex(e['hex'])
             fault = gen_data_damage(rng, raw) if (rng.random() < 0.6 and raw.find(b'BUFR', 1) < 0) else None
             items.append(_item(e, fault))
